@@ -102,50 +102,76 @@ Qed.
 
 Definition all_files (fs : fsys) : list fpath := map fst (files fs).
 
+Lemma NoDup_snoc0 : forall A (l : list A) x, NoDup l -> ~ In x l -> NoDup (l ++ [x]).
+Proof.
+  induction l as [|y l IH]; intros x Hn Hx; cbn.
+  - constructor; [intros [] | constructor].
+  - inversion Hn; subst. constructor.
+    + intro H. apply in_app_or in H as [H|[H|[]]]; [contradiction | subst; apply Hx; left; reflexivity].
+    + apply IH; [assumption | intro; apply Hx; right; assumption].
+Qed.
+
+(* the top levels of MODULES in an event list (an entry's / a REPL input's own event has key []) *)
+Definition mtrace (st : lstate) : list fpath := mtrace_of (events st).
+
+Lemma mtrace_of_app : forall a b, mtrace_of (a ++ b) = mtrace_of a ++ mtrace_of b.
+Proof. intros a b. unfold mtrace_of. rewrite filter_app, map_app. reflexivity. Qed.
+
+(* the part of the loader's invariant that does not depend on which program is being run: it
+   carries termination AND "at most once", and it holds across the inputs of a REPL session *)
 Record dinv (fs : fsys) (st : lstate) : Prop := {
   d_nodup : NoDup (stack st);
   d_incl : incl (stack st) (all_files fs);
-  d_loaded : forall k, In k (stack st) -> has_key k (loaded st)
+  d_loaded : forall k, In k (stack st) -> has_key k (loaded st);
+  d_tnodup : NoDup (mtrace st);
+  d_towner : forall g, In g (mtrace st) -> has_key g (loaded st) /\ ~ In g (stack st)
 }.
 
-Definition dpost {A} (st : lstate) (r : res (lstate * A)) : Prop :=
+Definition extends (st : lstate) (evs : list event) : Prop := exists ext, evs = events st ++ ext.
+
+Definition dpost {A} (fs : fsys) (st : lstate) (r : res (lstate * A)) : Prop :=
   match r with
-  | Ok (st', _) => stack st' = stack st /\ (forall k, has_key k (loaded st) -> has_key k (loaded st'))
-  | Err _ _ => True
+  | Ok (st', _) => dinv fs st' /\ stack st' = stack st /\
+                   (forall k, has_key k (loaded st) -> has_key k (loaded st')) /\ extends st (events st')
+  | Err _ tr => NoDup (mtrace_of tr) /\ extends st tr
   | Fuel => False
   end.
 
 Definition dgood (fs : fsys) (ld : loader) (n : nat) : Prop :=
-  forall j s, dinv fs s -> (n + length (stack s) > length (all_files fs))%nat -> dpost s (ld j s).
+  forall j s, dinv fs s -> (n + length (stack s) > length (all_files fs))%nat -> dpost fs s (ld j s).
 
-Lemma dinv_step : forall fs s s', dinv fs s -> stack s' = stack s ->
-  (forall k, has_key k (loaded s) -> has_key k (loaded s')) -> dinv fs s'.
-Proof.
-  intros fs s s' [H1 H2 H3] Hs Hl. split; rewrite Hs; auto.
-Qed.
+Lemma extends_refl : forall st, extends st (events st).
+Proof. intro st; exists []; rewrite app_nil_r; reflexivity. Qed.
+
+Lemma extends_trans : forall a b evs, extends a (events b) -> extends b evs -> extends a evs.
+Proof. intros a b evs [e1 H1] [e2 H2]. exists (e1 ++ e2). rewrite H2, H1, app_assoc. reflexivity. Qed.
+
+Lemma dinv_err : forall fs st, dinv fs st -> NoDup (mtrace_of (events st)) /\ extends st (events st).
+Proof. intros fs st H. split; [apply (d_tnodup _ _ H) | apply extends_refl]. Qed.
 
 Lemma go_mod_d : forall fs root ld n imps s acc,
   dgood fs ld n -> dinv fs s -> (n + length (stack s) > length (all_files fs))%nat ->
-  dpost s (go_mod fs root ld imps s acc).
+  dpost fs s (go_mod fs root ld imps s acc).
 Proof.
   intros fs root ld n imps; induction imps as [|j r IH]; intros s acc Hld Hinv Hf; cbn.
-  - split; auto.
+  - split; [exact Hinv|]. split; [reflexivity|]. split; [auto | apply extends_refl].
   - pose proof (Hld j s Hinv Hf) as Hj.
-    destruct (ld j s) as [[s' lr]| |]; cbn in Hj; [| exact I | contradiction].
-    destruct Hj as [Hs Hl].
-    assert (Hinv' : dinv fs s') by (eapply dinv_step; eauto).
+    destruct (ld j s) as [[s' lr]| |]; cbn in Hj; [| exact Hj | contradiction].
+    destruct Hj as (Hinv' & Hs & Hl & He).
     assert (Hf' : (n + length (stack s') > length (all_files fs))%nat) by (rewrite Hs; exact Hf).
     pose proof (IH s' (contrib_mod acc j lr (module_for fs root (base s') j (loaded s'))) Hld Hinv' Hf') as Hr.
     destruct (go_mod fs root ld r s' _) as [[s2 a2]| |]; cbn in *; auto.
-    destruct Hr as [Hs2 Hl2]. split; [congruence | auto].
+    + destruct Hr as (Hi2 & Hs2 & Hl2 & He2). split; [exact Hi2|]. split; [congruence|].
+      split; [auto | eapply extends_trans; eauto].
+    + destruct Hr as [Hn He2]. split; [exact Hn | eapply extends_trans; eauto].
 Qed.
 
 Lemma compile_d : forall fs root ld n file eimp m st,
-  dgood fs ld n -> In file (all_files fs) -> lookup file (loaded st) = None ->
+  dgood fs ld n -> In file (all_files fs) -> lookup file (loaded st) = None -> i_path eimp <> [] ->
   dinv fs st -> (S n + length (stack st) > length (all_files fs))%nat ->
-  dpost st (compile fs root ld file eimp m st).
+  dpost fs st (compile fs root ld file eimp m st).
 Proof.
-  intros fs root ld n file eimp m st Hld Ha Hnl Hinv Hf.
+  intros fs root ld n file eimp m st Hld Ha Hnl Hep Hinv Hf.
   unfold compile.
   set (info := {| mi_file := file; mi_exports := pub_names m; mi_name := _ |}).
   set (st1 := {| loaded := (file, info) :: loaded st; stack := file :: stack st;
@@ -158,27 +184,55 @@ Proof.
     - intros k [<-|Hk]; [exact Ha | apply (d_incl _ _ Hinv); exact Hk].
     - intros k [<-|Hk]; unfold has_key.
       + rewrite lookup_cons_eq; discriminate.
-      + apply has_key_cons. apply (d_loaded _ _ Hinv); exact Hk. }
+      + apply has_key_cons. apply (d_loaded _ _ Hinv); exact Hk.
+    - apply (d_tnodup _ _ Hinv).
+    - intros g Hg. destruct (d_towner _ _ Hinv g Hg) as [Hk Hnk]. split; [apply has_key_cons; exact Hk|].
+      intros [<-|Hin]; [unfold has_key in Hk; congruence | contradiction]. }
   assert (Hf1 : (n + length (stack st1) > length (all_files fs))%nat) by (cbn; lia).
   pose proof (go_mod_d fs root ld n (m_imports m) st1 ([], []) Hld Hinv1 Hf1) as Hg.
-  destruct (go_mod fs root ld (m_imports m) st1 ([], [])) as [[st2 acc]| |]; cbn in Hg; [| exact I | contradiction].
-  destruct Hg as [Hs Hl].
-  match goal with |- context [bind_exports ?a ?b ?c] => destruct (bind_exports a b c) end; cbn; [| exact I].
-  split.
-  - rewrite Hs; reflexivity.
+  destruct (go_mod fs root ld (m_imports m) st1 ([], [])) as [[st2 acc]| |]; cbn in Hg; [| exact Hg | contradiction].
+  destruct Hg as (Hi2 & Hs & Hl & He).
+  set (ev := {| ev_file := file; ev_key := i_path eimp; ev_aliases := fst acc; ev_known := _; ev_ns := _ |}).
+  assert (Hmod : is_mod_event ev = true).
+  { unfold is_mod_event, ev; cbn. destruct (key_eqb (i_path eimp) []) eqn:Ek; [apply key_eqb_eq in Ek; contradiction | reflexivity]. }
+  assert (Hmt : mtrace_of (events st2 ++ [ev]) = mtrace st2 ++ [file]).
+  { rewrite mtrace_of_app. unfold mtrace_of at 2. cbn [filter]. rewrite Hmod. reflexivity. }
+  assert (Hnotin : ~ In file (mtrace st2)).
+  { intro Hin. destruct (d_towner _ _ Hi2 file Hin) as [_ Hnk]. apply Hnk. rewrite Hs. left; reflexivity. }
+  assert (Hnd : NoDup (mtrace_of (events st2 ++ [ev]))).
+  { rewrite Hmt. apply NoDup_snoc0; [apply (d_tnodup _ _ Hi2) | exact Hnotin]. }
+  assert (Hext : extends st (events st2 ++ [ev])).
+  { destruct He as [e He]. exists (e ++ [ev]). rewrite He. cbn. rewrite app_assoc. reflexivity. }
+  match goal with |- context [bind_exports ?a ?b ?c] => destruct (bind_exports a b c) end; cbn; [| split; assumption].
+  split; [| split; [rewrite Hs; reflexivity | split; [| exact Hext]]].
+  - split.
+    + cbn. rewrite Hs. cbn. apply (d_nodup _ _ Hinv).
+    + cbn. rewrite Hs. cbn. apply (d_incl _ _ Hinv).
+    + cbn. rewrite Hs. cbn. intros k Hk. apply Hl. cbn. apply has_key_cons. apply (d_loaded _ _ Hinv); exact Hk.
+    + exact Hnd.
+    + unfold mtrace; cbn [events stack loaded]. rewrite Hmt, Hs. cbn [tl stack]. intros g Hg. apply in_app_or in Hg as [Hg|[<-|[]]].
+      * destruct (d_towner _ _ Hi2 g Hg) as [Hk Hnk]. split; [exact Hk|]. intro Hin. apply Hnk. rewrite Hs. right; exact Hin.
+      * split; [apply Hl; cbn; unfold has_key; rewrite lookup_cons_eq; discriminate | exact Hni].
   - intros k Hk. apply Hl. cbn. apply has_key_cons; exact Hk.
 Qed.
 
 Lemma load_step_d : forall fs root ld n, dgood fs ld n -> dgood fs (load_step fs root ld) (S n).
 Proof.
   intros fs root ld n Hld i st Hinv Hf. unfold load_step. cbv zeta.
-  destruct (i_path i) as [|x p']; [exact I|].
-  destruct (is_std (x :: p')); [cbn; auto|].
-  destruct (resolve_fb fs root (base st) (x :: p')) as [[[file actual] sym]|] eqn:Er; [| exact I].
-  apply resolve_fb_shape in Er as [[m Hm] _].
-  destruct (mem_key file (stack st)); [exact I|].
+  remember (i_path i) as p eqn:Ep in |- *. symmetry in Ep.
+  destruct p as [|x p']; [exact (dinv_err fs st Hinv)|].
+  destruct (is_std (x :: p')).
+  { cbn. split; [exact Hinv|]. split; [reflexivity|]. split; [auto | apply extends_refl]. }
+  destruct (resolve_fb fs root (base st) (x :: p')) as [[[file actual] sym]|] eqn:Er; [| exact (dinv_err fs st Hinv)].
+  destruct (resolve_fb_shape _ _ _ _ _ _ _ Er) as [[m Hm] Hshape].
+  set (eimp := match sym with Some s => {| i_path := actual; i_form := FSymbols [s] |} | None => i end).
+  assert (Hep : i_path eimp <> []).
+  { unfold eimp. destruct Hshape as [(_ & -> & ->)|(_ & _ & -> & Hne)]; cbn; [rewrite Ep; discriminate | exact Hne]. }
+  destruct (mem_key file (stack st)); [exact (dinv_err fs st Hinv)|].
   destruct (lookup file (loaded st)) as [info|] eqn:El.
-  - match goal with |- context [bind_exports ?a ?b ?c] => destruct (bind_exports a b c) end; cbn; auto.
+  - match goal with |- context [bind_exports ?a ?b ?c] => destruct (bind_exports a b c) end; cbn;
+      [| exact (dinv_err fs st Hinv)].
+    split; [destruct Hinv; split; assumption|]. split; [reflexivity|]. split; [auto | apply extends_refl].
   - rewrite Hm. eapply compile_d; eauto.
     apply lookup_In in Hm. unfold all_files. change file with (fst (file, m)). apply in_map; exact Hm.
 Qed.
@@ -193,16 +247,34 @@ Qed.
 
 Lemma entry_go_d : forall fs root n imps s acc orig,
   dinv fs s -> (n + length (stack s) > length (all_files fs))%nat ->
-  entry_go fs root n imps s acc orig <> Fuel.
+  match entry_go fs root n imps s acc orig with
+  | Ok (s2, _) => dinv fs s2 /\ stack s2 = stack s /\ extends s (events s2)
+  | Err _ tr => NoDup (mtrace_of tr) /\ extends s tr
+  | Fuel => False
+  end.
 Proof.
-  intros fs root n imps; induction imps as [|j r IH]; intros s acc orig Hinv Hf; cbn; [discriminate|].
-  pose proof (load_d fs root n j s Hinv Hf) as Hj.
-  destruct (load fs root n j s) as [[s' lr]| |]; cbn in Hj; [| discriminate | contradiction].
-  destruct Hj as [Hs Hl].
-  destruct (contrib_entry acc orig j lr _) as [[acc' orig']|]; [| discriminate].
-  apply IH.
-  - eapply dinv_step; eauto.
-  - rewrite Hs; exact Hf.
+  intros fs root n imps; induction imps as [|j r IH]; intros s acc orig Hinv Hf; cbn.
+  - split; [exact Hinv|]. split; [reflexivity | apply extends_refl].
+  - pose proof (load_d fs root n j s Hinv Hf) as Hj.
+    destruct (load fs root n j s) as [[s' lr]| |]; cbn in Hj; [| exact Hj | contradiction].
+    destruct Hj as (Hinv' & Hs & Hl & He).
+    destruct (contrib_entry acc orig j lr _) as [[acc' orig']|].
+    + assert (Hf' : (n + length (stack s') > length (all_files fs))%nat) by (rewrite Hs; exact Hf).
+      pose proof (IH s' acc' orig' Hinv' Hf') as Hr.
+      destruct (entry_go fs root n r s' acc' orig') as [[s2 a2]| |]; auto.
+      * destruct Hr as (Hi2 & Hs2 & He2). split; [exact Hi2|]. split; [congruence | eapply extends_trans; eauto].
+      * destruct Hr as [Hn He2]. split; [exact Hn | eapply extends_trans; eauto].
+    + split; [apply (d_tnodup _ _ Hinv') | exact He].
+Qed.
+
+Lemma init_dinv : forall fs root, dinv fs {| loaded := []; stack := []; base := root; ns := []; events := [] |}.
+Proof.
+  intros fs root. split; cbn.
+  - constructor.
+  - intros k [].
+  - intros k [].
+  - constructor.
+  - intros g [].
 Qed.
 
 Lemma no_divergence_lemma : forall fs entry fuel,
@@ -210,11 +282,69 @@ Lemma no_divergence_lemma : forall fs entry fuel,
 Proof.
   intros fs entry fuel Hf. unfold run.
   destruct (find_file fs entry) as [m|] eqn:Em; [| discriminate].
-  pose proof (entry_go_d fs (dir_of entry) fuel (m_imports m) (init_state entry) ([], []) []) as H.
+  pose proof (entry_go_d fs (dir_of entry) fuel (m_imports m) (init_state entry) ([], []) []
+                (init_dinv fs (dir_of entry))) as H.
   destruct (entry_go fs (dir_of entry) fuel (m_imports m) (init_state entry) ([], []) []) as [[st acc]| |]; try discriminate.
-  exfalso. apply H; auto.
-  - split; cbn; [constructor | intros k [] | intros k []].
-  - cbn. unfold fuel_bound, all_files in *. rewrite map_length. lia.
+  exfalso. apply H. cbn. unfold fuel_bound, all_files in *. rewrite map_length. lia.
+Qed.
+
+(* ---- REPL sessions: at most once over the whole session *)
+Lemma skipn_app_length : forall A (a b : list A), skipn (length a) (a ++ b) = b.
+Proof. induction a as [|x a IH]; intro b; cbn; [reflexivity | apply IH]. Qed.
+
+Lemma run_input_d : forall fs root fuel name m ss,
+  dinv fs (ss_st ss) -> stack (ss_st ss) = [] -> (fuel > length (all_files fs))%nat ->
+  match run_input fs root fuel name m ss with
+  | Ok (ss', _) => dinv fs (ss_st ss') /\ stack (ss_st ss') = [] /\ extends (ss_st ss) (events (ss_st ss'))
+  | Err _ tr => NoDup (mtrace_of tr) /\ extends (ss_st ss) tr
+  | Fuel => False
+  end.
+Proof.
+  intros fs root fuel name m ss Hinv Hstk Hf. unfold run_input.
+  pose proof (entry_go_d fs root fuel (m_imports m) (ss_st ss) (ss_names ss) [] Hinv) as Hg.
+  rewrite Hstk in Hg. cbn in Hg. specialize (Hg ltac:(lia)).
+  destruct (entry_go fs root fuel (m_imports m) (ss_st ss) (ss_names ss) []) as [[st acc]| |]; auto.
+  destruct Hg as (Hi & Hs & He). cbn.
+  set (ev := {| ev_file := name; ev_key := []; ev_aliases := fst acc; ev_known := _; ev_ns := _ |}).
+  assert (Hmt : mtrace_of (events st ++ [ev]) = mtrace st).
+  { rewrite mtrace_of_app. unfold mtrace_of at 2. cbn. rewrite app_nil_r. reflexivity. }
+  split; [| split; [reflexivity|]].
+  - split.
+    + cbn. constructor.
+    + cbn. intros k [].
+    + cbn. intros k [].
+    + unfold mtrace; cbn [events ss_st]. rewrite Hmt. apply (d_tnodup _ _ Hi).
+    + unfold mtrace; cbn [events ss_st stack loaded]. rewrite Hmt. intros g Hg. split; [apply (d_towner _ _ Hi g Hg) | intros []].
+  - destruct He as [e He]. exists (e ++ [ev]). cbn. rewrite He, app_assoc. reflexivity.
+Qed.
+
+Lemma run_session_d : forall fs root fuel inputs ss,
+  dinv fs (ss_st ss) -> stack (ss_st ss) = [] -> (fuel > length (all_files fs))%nat ->
+  let rs := run_session fs root fuel inputs ss in
+  (forall r, In r rs -> r <> Fuel) /\ NoDup (mtrace_of (events (ss_st ss) ++ session_events rs)).
+Proof.
+  intros fs root fuel inputs; induction inputs as [|[name m] r IH]; intros ss Hinv Hstk Hf; cbn.
+  - split; [intros x [] | rewrite app_nil_r; apply (d_tnodup _ _ Hinv)].
+  - pose proof (run_input_d fs root fuel name m ss Hinv Hstk Hf) as Hi.
+    destruct (run_input fs root fuel name m ss) as [[ss' ev]| |]; [| | contradiction].
+    + destruct Hi as (Hinv' & Hstk' & [ext He]).
+      destruct (IH ss' Hinv' Hstk' Hf) as [Hnf Hnd]. cbn. rewrite He, skipn_app_length.
+      split.
+      * intros x [<-|Hx]; [discriminate | apply Hnf; exact Hx].
+      * rewrite He in Hnd. rewrite <- app_assoc in Hnd. exact Hnd.
+    + destruct Hi as (Hnd & [ext He]). cbn. rewrite He, skipn_app_length, app_nil_r.
+      split; [intros x [<-|[]]; discriminate | rewrite <- He; exact Hnd].
+Qed.
+
+Lemma session_init_once_lemma : forall fs root fuel inputs, (fuel >= fuel_bound fs)%nat ->
+  let rs := run_session fs root fuel inputs (session_start root) in
+  (forall r, In r rs -> r <> Fuel) /\ NoDup (mtrace_of (session_events rs)).
+Proof.
+  intros fs root fuel inputs Hf.
+  apply (run_session_d fs root fuel inputs (session_start root)); cbn.
+  - apply init_dinv.
+  - reflexivity.
+  - unfold fuel_bound, all_files in *. rewrite map_length. lia.
 Qed.
 
 (* ================================================================ the DFS is right, for every tree *)
